@@ -7,6 +7,7 @@
 package main
 
 import (
+	"bufio"
 	"context"
 	"encoding/json"
 	"flag"
@@ -160,6 +161,51 @@ func genItems(r *hx.Rng, n int, sc *Scenario) {
 	}
 }
 
+// itemsFromShape builds a concrete stream for a TLC-enumerated shape.
+func itemsFromShape(r *hx.Rng, shape []string, sc *Scenario) {
+	off := sc.Start
+	for i, k := range shape {
+		var name string
+		var args [][]byte
+		kind, d := k, 0
+		key := []byte(fmt.Sprintf("k:%d", i+1))
+		val := append([]byte(fmt.Sprintf("v%d:", i+1)), r.Bytes(r.Intn(6))...)
+		switch k {
+		case "cmd":
+			switch r.Intn(4) {
+			case 0:
+				name, args = "SET", [][]byte{key, val}
+			case 1:
+				name, args = "rpush", [][]byte{key, val}
+			case 2:
+				name, args = "hset", [][]byte{key, []byte("f"), val}
+			default:
+				name, args = "incr", [][]byte{key}
+			}
+		case "sel0", "sel1", "sel2":
+			kind, d = "sel", int(k[3]-'0')
+			name, args = "SELECT", [][]byte{[]byte(strconv.Itoa(d))}
+		case "multi":
+			name = "MULTI"
+		case "exec":
+			name = "EXEC"
+		case "ping":
+			name = "PING"
+		case "flt":
+			if r.Bool() {
+				name, args = "set", [][]byte{[]byte(fmt.Sprintf("redis-gunyu-checkpoint:%d", i+1)), []byte("x")}
+			} else {
+				name, args = "REPLCONF", [][]byte{[]byte("GETACK"), []byte("*")}
+			}
+		default:
+			hx.Fatal("unknown shape item %q", k)
+		}
+		enc := hx.EncodeCmd(append([][]byte{[]byte(name)}, args...)...)
+		off += int64(len(enc))
+		sc.Items = append(sc.Items, Item{K: kind, D: d, E: off, Name: strings.ToLower(name), Args: args, Enc: enc})
+	}
+}
+
 func genScenario(r *hx.Rng, id int, maxItems int) *Scenario {
 	sc := &Scenario{ID: id, TargetDb: -1, Start: int64(100 + r.Intn(1000)), Ticks: map[int][]string{}}
 	sc.Txn = r.Bool()
@@ -281,6 +327,7 @@ type Stats struct {
 	Kinds         map[string]int `json:"kinds"`
 	Samples       []interface{}  `json:"samples"`
 	Distinct      int            `json:"distinct_scenarios"`
+	Shapes        int            `json:"shapes"`
 }
 
 func (rn *runner) redisCfg() config.RedisConfig {
@@ -745,6 +792,8 @@ func main() {
 	shards := flag.Int("shards", 1, "number of shards")
 	replay := flag.String("replay", "", "replay one scenario description (json)")
 	scenPath := flag.String("scen", "", "write full scenario descriptions (ndjson)")
+	shapesPath := flag.String("shapes", "", "TLC-enumerated stream shapes (ndjson) replayed exhaustively")
+	shapeCrashStride := flag.Int("shape-crash-stride", 0, "crash every k-th request of each shape run (0 = none)")
 	flag.Parse()
 	hx.QuietLogs()
 	installHooks()
@@ -781,6 +830,46 @@ func main() {
 
 	id := 0
 	nextID := func() int { id++; return id*(*shards) + *shard }
+	if *shapesPath != "" {
+		f, err := os.Open(*shapesPath)
+		if err != nil {
+			hx.Fatal("%v", err)
+		}
+		scn := bufio.NewScanner(f)
+		scn.Buffer(make([]byte, 1<<20), 1<<24)
+		ln := 0
+		for scn.Scan() {
+			ln++
+			if ln%*shards != *shard {
+				continue
+			}
+			var sh struct {
+				S []string `json:"s"`
+			}
+			if err := json.Unmarshal(scn.Bytes(), &sh); err != nil {
+				hx.Fatal("shapes: %v", err)
+			}
+			r := hx.NewRng(*seed*7_000_003 + uint64(ln))
+			for _, txn := range []bool{true, false} {
+				base := &Scenario{TargetDb: -1, Start: int64(100 + r.Intn(1000)), Ticks: map[int][]string{}, Txn: txn, Batch: 2, Desc: "shape"}
+				itemsFromShape(r, sh.S, base)
+				s0 := clone(base)
+				s0.ID = nextID()
+				total := runScenario(s0, tr, stats)
+				stats.Shapes++
+				if *shapeCrashStride > 0 {
+					for k := 1 + r.Intn(*shapeCrashStride); k <= total; k += *shapeCrashStride {
+						s := clone(base)
+						s.ID = nextID()
+						s.Crash = []int{k}
+						s.Desc = "shape-crash"
+						runScenario(s, tr, stats)
+					}
+				}
+			}
+		}
+		f.Close()
+	}
 	for b := 0; b < *n; b++ {
 		if b%*shards != *shard {
 			continue
